@@ -56,6 +56,7 @@ type point struct {
 
 type series struct {
 	Type        string // sum | gauge | hist | expo
+	Float       bool   // number type of the data
 	Temporality metricdata.Temporality
 	Pts         map[int]*point // by pool index of the attribute set
 }
@@ -63,17 +64,18 @@ type series struct {
 type snap struct {
 	Series   map[string]*series // by instrument (stream) name
 	Problems []string           // structural problems: kind\x00message
+	Slot     map[string][2]int  // where the metric sat in the output: scope index, metric index
 }
 
 func (s *snap) problem(kind, format string, a ...any) {
 	s.Problems = append(s.Problems, kind+"\x00"+fmt.Sprintf(format, a...))
 }
 
-func (s *snap) add(name, typ string, temp metricdata.Temporality) *series {
+func (s *snap) add(name, typ string, temp metricdata.Temporality, float ...bool) *series {
 	if _, dup := s.Series[name]; dup {
 		s.problem("duplicate_metric", "metric %q appears twice in one collection", name)
 	}
-	se := &series{Type: typ, Temporality: temp, Pts: map[int]*point{}}
+	se := &series{Type: typ, Temporality: temp, Pts: map[int]*point{}, Float: len(float) > 0 && float[0]}
 	s.Series[name] = se
 	return se
 }
@@ -107,6 +109,10 @@ func histPoints[N int64 | float64](s *snap, name string, se *series, dps []metri
 		if v, ok := dp.Max.Value(); ok {
 			p.HasMax, p.Max = true, float64(v)
 		}
+		if len(dp.BucketCounts) != len(dp.Bounds)+1 {
+			// "per-bucket counts" presupposes one count per bucket of the point's own bounds.
+			s.problem("histogram_buckets_vs_bounds", "metric %q: %d bucket counts %v for %d bounds %v", name, len(dp.BucketCounts), dp.BucketCounts, len(dp.Bounds), dp.Bounds)
+		}
 		s.put(name, se, dp.Attributes, p)
 	}
 }
@@ -128,9 +134,10 @@ func expoPoints[N int64 | float64](s *snap, name string, se *series, dps []metri
 }
 
 func takeSnap(rm *metricdata.ResourceMetrics) *snap {
-	s := &snap{Series: map[string]*series{}}
-	for _, sm := range rm.ScopeMetrics {
-		for _, m := range sm.Metrics {
+	s := &snap{Series: map[string]*series{}, Slot: map[string][2]int{}}
+	for si, sm := range rm.ScopeMetrics {
+		for mi, m := range sm.Metrics {
+			s.Slot[m.Name] = [2]int{si, mi}
 			switch d := m.Data.(type) {
 			case metricdata.Sum[int64]:
 				numPoints(s, m.Name, s.add(m.Name, "sum", d.Temporality), d.DataPoints)
@@ -141,9 +148,9 @@ func takeSnap(rm *metricdata.ResourceMetrics) *snap {
 			case metricdata.Gauge[float64]:
 				numPoints(s, m.Name, s.add(m.Name, "gauge", 0), d.DataPoints)
 			case metricdata.Histogram[int64]:
-				histPoints(s, m.Name, s.add(m.Name, "hist", d.Temporality), d.DataPoints)
+				histPoints(s, m.Name, s.add(m.Name, "hist", d.Temporality, false), d.DataPoints)
 			case metricdata.Histogram[float64]:
-				histPoints(s, m.Name, s.add(m.Name, "hist", d.Temporality), d.DataPoints)
+				histPoints(s, m.Name, s.add(m.Name, "hist", d.Temporality, true), d.DataPoints)
 			case metricdata.ExponentialHistogram[int64]:
 				expoPoints(s, m.Name, s.add(m.Name, "expo", d.Temporality), d.DataPoints)
 			case metricdata.ExponentialHistogram[float64]:
@@ -174,8 +181,11 @@ type cycle struct {
 	Cum       *snap
 	DeltaErr  error
 	CumErr    error
-	deltaRM   *metricdata.ResourceMetrics // retained outputs (fresh-rm mode)
+	deltaRM   *metricdata.ResourceMetrics // retained outputs (only when a fresh ResourceMetrics was used)
 	cumRM     *metricdata.ResourceMetrics
+	DeltaRMIs string // fresh | own | pool<k>
+	CumRMIs   string
+	Handover  bool  // a reader was given a ResourceMetrics last filled by the other reader
 	DeltaLate *snap // the retained outputs read again at the end of the history
 	CumLate   *snap
 }
@@ -192,10 +202,15 @@ type world struct {
 	iObs  []metric.Int64Observable
 	fObs  []metric.Float64Observable
 
-	meter    metric.Meter
-	createBr bracket
-	cycles   []*cycle
-	pending  []map[int][]float64 // records of the running cycle
+	mp        *sdkmetric.MeterProvider
+	meters    [2]metric.Meter // obtained at first use
+	meter     metric.Meter    // scope 0; observables and callbacks live here
+	syncBr    []bracket       // creation bracket of each sync instrument
+	createdAt []int           // number of collections that preceded its creation (-1: not created)
+	obsBr     bracket         // creation bracket of the observable instruments
+	scopeAt   [2]int          // number of collections that preceded the first instrument of the scope (-1: none yet)
+	cycles    []*cycle
+	pending   []map[int][]float64 // records of the running cycle
 }
 
 func (w *world) validSet(s int) bool { return s >= 0 && s < w.c.NSets && s < maxSets }
@@ -333,6 +348,16 @@ func execute(c Case) *world {
 			sdkmetric.Stream{Aggregation: sdkmetric.AggregationBase2ExponentialHistogram{MaxSize: maxSize, MaxScale: 20}},
 		)),
 	}
+	viewed := map[int]bool{}
+	for _, d := range syncDefs {
+		if d.bsrc == bView && !viewed[d.bidx] {
+			viewed[d.bidx] = true
+			opts = append(opts, sdkmetric.WithView(sdkmetric.NewView(
+				sdkmetric.Instrument{Name: d.name[:len(d.name)-1] + "*"}, // vhist_*
+				sdkmetric.Stream{Aggregation: sdkmetric.AggregationExplicitBucketHistogram{Boundaries: w.c.bounds(d.bidx)}},
+			)))
+		}
+	}
 	if w.c.ProvCumFirst {
 		opts = append(opts, sdkmetric.WithReader(cumR), sdkmetric.WithReader(deltaR))
 	} else {
@@ -340,54 +365,26 @@ func execute(c Case) *world {
 	}
 	mp := sdkmetric.NewMeterProvider(opts...)
 	defer func() { _ = mp.Shutdown(ctx) }()
-	w.meter = mp.Meter("c08")
+	w.mp = mp
+	w.scopeAt = [2]int{-1, -1}
 
-	// ---- all instruments are created up front, inside one bracket ----
+	// ---- sync instruments: up front unless the case lists them as late ----
 	w.iSync = make([]func(context.Context, int64, attribute.Set), len(syncDefs))
 	w.fSync = make([]func(context.Context, float64, attribute.Set), len(syncDefs))
-	w.iObs = make([]metric.Int64Observable, len(obsDefs))
-	w.fObs = make([]metric.Float64Observable, len(obsDefs))
-	w.createBr.Before = time.Now()
-	for i, d := range syncDefs {
-		var err error
-		switch {
-		case d.kind == kCounter && !d.float:
-			var in metric.Int64Counter
-			in, err = w.meter.Int64Counter(d.name)
-			w.iSync[i] = func(ctx context.Context, v int64, s attribute.Set) { in.Add(ctx, v, metric.WithAttributeSet(s)) }
-		case d.kind == kCounter:
-			var in metric.Float64Counter
-			in, err = w.meter.Float64Counter(d.name)
-			w.fSync[i] = func(ctx context.Context, v float64, s attribute.Set) { in.Add(ctx, v, metric.WithAttributeSet(s)) }
-		case d.kind == kUpDown && !d.float:
-			var in metric.Int64UpDownCounter
-			in, err = w.meter.Int64UpDownCounter(d.name)
-			w.iSync[i] = func(ctx context.Context, v int64, s attribute.Set) { in.Add(ctx, v, metric.WithAttributeSet(s)) }
-		case d.kind == kUpDown:
-			var in metric.Float64UpDownCounter
-			in, err = w.meter.Float64UpDownCounter(d.name)
-			w.fSync[i] = func(ctx context.Context, v float64, s attribute.Set) { in.Add(ctx, v, metric.WithAttributeSet(s)) }
-		case (d.kind == kHist || d.kind == kExpo) && !d.float:
-			var in metric.Int64Histogram
-			in, err = w.meter.Int64Histogram(d.name)
-			w.iSync[i] = func(ctx context.Context, v int64, s attribute.Set) { in.Record(ctx, v, metric.WithAttributeSet(s)) }
-		case d.kind == kHist || d.kind == kExpo:
-			var in metric.Float64Histogram
-			in, err = w.meter.Float64Histogram(d.name)
-			w.fSync[i] = func(ctx context.Context, v float64, s attribute.Set) { in.Record(ctx, v, metric.WithAttributeSet(s)) }
-		case d.kind == kGauge && !d.float:
-			var in metric.Int64Gauge
-			in, err = w.meter.Int64Gauge(d.name)
-			w.iSync[i] = func(ctx context.Context, v int64, s attribute.Set) { in.Record(ctx, v, metric.WithAttributeSet(s)) }
-		default:
-			var in metric.Float64Gauge
-			in, err = w.meter.Float64Gauge(d.name)
-			w.fSync[i] = func(ctx context.Context, v float64, s attribute.Set) { in.Record(ctx, v, metric.WithAttributeSet(s)) }
-		}
-		if err != nil {
-			w.fail("creating %s: %v", d.name, err)
+	w.syncBr = make([]bracket, len(syncDefs))
+	w.createdAt = make([]int, len(syncDefs))
+	for i := range syncDefs {
+		w.createdAt[i] = -1
+		if !contains(w.c.Late, i) {
+			w.createSync(i)
 		}
 	}
+
+	// ---- observable instruments: all up front, inside one bracket ----
+	w.iObs = make([]metric.Int64Observable, len(obsDefs))
+	w.fObs = make([]metric.Float64Observable, len(obsDefs))
+	w.obsBr.Before = time.Now()
+	w.meter = w.scopeMeter(0)
 	for i, d := range obsDefs {
 		var err error
 		switch {
@@ -408,20 +405,34 @@ func execute(c Case) *world {
 			w.fail("creating %s: %v", d.name, err)
 		}
 	}
-	w.createBr.After = time.Now()
+	w.obsBr.After = time.Now()
+	if w.scopeAt[0] < 0 {
+		w.scopeAt[0] = 0
+	}
 
 	// ---- the history ----
-	var deltaRM, cumRM metricdata.ResourceMetrics // reused outputs (Reuse mode)
-	collect := func(r *sdkmetric.ManualReader, reused *metricdata.ResourceMetrics) (*metricdata.ResourceMetrics, *snap, bracket, error) {
-		rm := reused
-		if !w.c.Reuse {
-			rm = &metricdata.ResourceMetrics{}
+	var deltaRM, cumRM metricdata.ResourceMetrics // the readers' own reused outputs
+	var pool [rmPool]metricdata.ResourceMetrics   // shared slots
+	var poolLast [rmPool]*sdkmetric.ManualReader  // who filled the slot last
+	collect := func(r *sdkmetric.ManualReader, own *metricdata.ResourceMetrics, slot int) (rm *metricdata.ResourceMetrics, sn *snap, br bracket, err error, is string, handover bool) {
+		switch {
+		case slot >= 1 && slot <= rmPool:
+			rm, is = &pool[slot-1], fmt.Sprintf("pool%d", slot)
+			handover = poolLast[slot-1] != nil && poolLast[slot-1] != r
+			poolLast[slot-1] = r
+		case w.c.Reuse:
+			rm, is = own, "own"
+		default:
+			rm, is = &metricdata.ResourceMetrics{}, "fresh"
 		}
-		var br bracket
 		br.Before = time.Now()
-		err := r.Collect(ctx, rm)
+		err = r.Collect(ctx, rm)
 		br.After = time.Now()
-		return rm, takeSnap(rm), br, err
+		sn = takeSnap(rm)
+		if is != "fresh" {
+			rm = nil // will be overwritten; nothing to re-read later
+		}
+		return rm, sn, br, err, is, handover
 	}
 	steps := w.c.Ops
 	if len(steps) > maxSteps {
@@ -434,6 +445,9 @@ func execute(c Case) *world {
 				continue
 			}
 			d := syncDefs[op.Inst]
+			if w.createdAt[op.Inst] < 0 {
+				w.createSync(op.Inst)
+			}
 			set := attribute.NewSet(setPool[op.Set]...)
 			if d.float {
 				w.fSync[op.Inst](ctx, float64(op.V), set)
@@ -482,20 +496,25 @@ func execute(c Case) *world {
 			cy := &cycle{Recorded: w.pending, RanMulti: append([]bool{}, w.registered...)}
 			w.pending = newPending()
 			cy.Observed, cy.StrayObs = w.observedNow()
+			var h1, h2 bool
 			if op.CumFirst {
-				cy.cumRM, cy.Cum, cy.CumBr, cy.CumErr = collect(cumR, &cumRM)
-				cy.deltaRM, cy.Delta, cy.DeltaBr, cy.DeltaErr = collect(deltaR, &deltaRM)
+				cy.cumRM, cy.Cum, cy.CumBr, cy.CumErr, cy.CumRMIs, h1 = collect(cumR, &cumRM, op.CRM)
+				cy.deltaRM, cy.Delta, cy.DeltaBr, cy.DeltaErr, cy.DeltaRMIs, h2 = collect(deltaR, &deltaRM, op.DRM)
 			} else {
-				cy.deltaRM, cy.Delta, cy.DeltaBr, cy.DeltaErr = collect(deltaR, &deltaRM)
-				cy.cumRM, cy.Cum, cy.CumBr, cy.CumErr = collect(cumR, &cumRM)
+				cy.deltaRM, cy.Delta, cy.DeltaBr, cy.DeltaErr, cy.DeltaRMIs, h1 = collect(deltaR, &deltaRM, op.DRM)
+				cy.cumRM, cy.Cum, cy.CumBr, cy.CumErr, cy.CumRMIs, h2 = collect(cumR, &cumRM, op.CRM)
 			}
+			cy.Handover = h1 || h2
 			w.cycles = append(w.cycles, cy)
 		}
 	}
 	// Outputs handed out earlier, read again now that the history is over.
-	if !w.c.Reuse {
-		for _, cy := range w.cycles {
-			cy.DeltaLate, cy.CumLate = takeSnap(cy.deltaRM), takeSnap(cy.cumRM)
+	for _, cy := range w.cycles {
+		if cy.deltaRM != nil {
+			cy.DeltaLate = takeSnap(cy.deltaRM)
+		}
+		if cy.cumRM != nil {
+			cy.CumLate = takeSnap(cy.cumRM)
 		}
 	}
 	for j, r := range w.regs {
@@ -504,4 +523,76 @@ func execute(c Case) *world {
 		}
 	}
 	return w
+}
+
+var scopeNames = [2]string{"c08", "c08b"}
+
+func (w *world) scopeMeter(scope int) metric.Meter {
+	if w.meters[scope] == nil {
+		w.meters[scope] = w.mp.Meter(scopeNames[scope])
+	}
+	return w.meters[scope]
+}
+
+// createSync creates sync instrument i (its meter too, at first use of the
+// scope) and notes the wall-clock bracket and the position in the history.
+func (w *world) createSync(i int) {
+	d := syncDefs[i]
+	var hopts []metric.HistogramOption
+	if d.kind == kHist && d.bsrc == bAdvisory {
+		hopts = append(hopts, metric.WithExplicitBucketBoundaries(w.c.bounds(d.bidx)...))
+	}
+	var err error
+	w.syncBr[i].Before = time.Now()
+	m := w.scopeMeter(d.scope)
+	switch {
+	case d.kind == kCounter && !d.float:
+		var in metric.Int64Counter
+		in, err = m.Int64Counter(d.name)
+		w.iSync[i] = func(ctx context.Context, v int64, s attribute.Set) { in.Add(ctx, v, metric.WithAttributeSet(s)) }
+	case d.kind == kCounter:
+		var in metric.Float64Counter
+		in, err = m.Float64Counter(d.name)
+		w.fSync[i] = func(ctx context.Context, v float64, s attribute.Set) { in.Add(ctx, v, metric.WithAttributeSet(s)) }
+	case d.kind == kUpDown && !d.float:
+		var in metric.Int64UpDownCounter
+		in, err = m.Int64UpDownCounter(d.name)
+		w.iSync[i] = func(ctx context.Context, v int64, s attribute.Set) { in.Add(ctx, v, metric.WithAttributeSet(s)) }
+	case d.kind == kUpDown:
+		var in metric.Float64UpDownCounter
+		in, err = m.Float64UpDownCounter(d.name)
+		w.fSync[i] = func(ctx context.Context, v float64, s attribute.Set) { in.Add(ctx, v, metric.WithAttributeSet(s)) }
+	case (d.kind == kHist || d.kind == kExpo) && !d.float:
+		var in metric.Int64Histogram
+		io := make([]metric.Int64HistogramOption, len(hopts))
+		for k, o := range hopts {
+			io[k] = o
+		}
+		in, err = m.Int64Histogram(d.name, io...)
+		w.iSync[i] = func(ctx context.Context, v int64, s attribute.Set) { in.Record(ctx, v, metric.WithAttributeSet(s)) }
+	case d.kind == kHist || d.kind == kExpo:
+		var in metric.Float64Histogram
+		fo := make([]metric.Float64HistogramOption, len(hopts))
+		for k, o := range hopts {
+			fo[k] = o
+		}
+		in, err = m.Float64Histogram(d.name, fo...)
+		w.fSync[i] = func(ctx context.Context, v float64, s attribute.Set) { in.Record(ctx, v, metric.WithAttributeSet(s)) }
+	case d.kind == kGauge && !d.float:
+		var in metric.Int64Gauge
+		in, err = m.Int64Gauge(d.name)
+		w.iSync[i] = func(ctx context.Context, v int64, s attribute.Set) { in.Record(ctx, v, metric.WithAttributeSet(s)) }
+	default:
+		var in metric.Float64Gauge
+		in, err = m.Float64Gauge(d.name)
+		w.fSync[i] = func(ctx context.Context, v float64, s attribute.Set) { in.Record(ctx, v, metric.WithAttributeSet(s)) }
+	}
+	w.syncBr[i].After = time.Now()
+	w.createdAt[i] = len(w.cycles)
+	if w.scopeAt[d.scope] < 0 {
+		w.scopeAt[d.scope] = len(w.cycles)
+	}
+	if err != nil {
+		w.fail("creating %s: %v", d.name, err)
+	}
 }
